@@ -16,7 +16,7 @@ from sa.scipp_model import Model
 from sa.term import Rat
 from sa.units import Unit
 
-from .common import eq_term, events
+from .common import private_helper, eq_term, events
 
 NIST_COLUMNS = [
     ('coherent_scattering_length_re', 'fm'), ('coherent_scattering_length_im', 'fm'),
@@ -129,10 +129,7 @@ def run(tier: str) -> Run:
             rr.check(b is None, fname, lwhere, {'name': b[0], 'problem': b[1]} if b else {}, key=fname)
 
     r3b = run.rule('R3b', '_assemble_scalar: blank value -> None; variance = uncertainty**2 (0 stays 0); blank uncertainty -> no variance', 4)
-    try:
-        afi = repo.func('atoms', '_assemble_scalar')
-    except AnalysisError:
-        afi = None  # a private helper: values, variances and blanks are decided per table row by R3 and R5
+    afi = private_helper(repo, 'atoms', '_assemble_scalar', ['value', 'std', 'unit'])  # else: decided per table row by R3 and R5
     cases = [(('1.5', '0.5', 'fm'), (1.5, 0.25, 'fm')), (('12.0', '0.0000000', 'Da'), (12.0, 0.0, 'Da')),
              (('2.5', '', 'barn'), (2.5, None, 'barn')), (('', '0.1', 'fm'), None)]
     if afi is None:
@@ -157,10 +154,7 @@ def run(tier: str) -> Run:
     # ---- R5 isotope names ------------------------------------------------------------------
     r5 = run.rule('R5', 'element of an isotope name = the letters after optional leading digits (finite-domain evaluation); '
                         'Atom.for_isotope: z and weight of that element, mass only for isotopes', 60)
-    try:
-        nfi = repo.func('atoms', '_parse_isotope_name')
-    except AnalysisError:
-        nfi = None  # a private helper: the element of a name is decided through Atom.for_isotope below
+    nfi = private_helper(repo, 'atoms', '_parse_isotope_name', ['name'])  # else: the element of a name is decided through Atom.for_isotope below
     if nfi is not None:
         ok, detail = check_name_parser(repo, nfi, 5 if tier == 'thorough' else 4)
         r5.check(ok, '_parse_isotope_name', loc(nfi), detail, key='pattern')
